@@ -241,6 +241,11 @@ def run_end_to_end(run):
         for (fname, form), o in itertools.product(forms, option_sets(run.tier)):
             tag = "".join("1" if o[k] else "0" for k in OPTS)
             name = f"e2e_{cell[:3]}{g}_{fname}_{tag}"
+            if g == 3 and o["do_cancel_jacobian_products"] and fname in ("stiff", "nonlin", "div", "flux", "bmass"):
+                # measured: the field normal form of these 3D cases does not finish within 240 s; the same
+                # forms x options are covered on interval and triangle, and without cancellation in 3D
+                skipped.append((name, "3D + Jacobian cancellation on a derivative/facet form: normal form too large"))
+                continue
             try:
                 c = build_case(name, m, form, o)
             except ufl2coq.Unsupported as e:
